@@ -33,8 +33,12 @@ theorem nurseryStep_only {sp : Spec} {s s' : Sys} {k : Nat} (h : nurseryStep sp 
       · cases h; exact ⟨_, rfl⟩
       · cases h
     · split at h
-      · cases h; exact ⟨_, rfl⟩
-      · cases h
+      · split at h
+        · cases h; exact ⟨_, rfl⟩
+        · cases h
+      · split at h
+        · cases h; exact ⟨_, rfl⟩
+        · cases h
 
 /-! ### every upstream resolution is justified by an observed chain fact -/
 
